@@ -146,6 +146,18 @@ def build_traces(path, tier, seed):
         add({"kind": "series", "T": enc(ratio_ * dt_), "xi": enc(xi_), "dt": enc(dt_), "a": enc_seq(a), "u": enc_seq(u[0]), "v": enc_seq(v[0]), "acc": enc_seq(acc[0])},
             {"kind": "series", "n": n, "T_over_dt": ratio_, "xi": xi_, "dt": dt_, "entry": ["response_series", "nigam_and_jennings_response", "AccSignal.response_series"][j % 3],
              "shape": shape, "time_unit_regime": True})
+    # records timed in units so extreme that w^2, w^3 dt leave the double range (dt = 1e-110 / 1e110): listed as an open finding
+    # (known_findings.json, C01-extreme-time-unit); exercised on every run so that the finding is re-observed, never suppressing
+    # anything else (its failures are reported under their own clause and site)
+    for j, (dt_, ratio_) in enumerate([(1.0e-110, 4.0), (1.0e110, 50.0)]):
+        a = np.array([0.0, 1.0, -1.0, 2.0, 0.5, -0.3, 0.8])
+        try:
+            with np.errstate(all="ignore"):
+                u, v, acc = sdof.response_series(a, dt_, np.array([ratio_ * dt_]), 0.05)
+            add({"kind": "series", "T": enc(ratio_ * dt_), "xi": enc(0.05), "dt": enc(dt_), "a": enc_seq(a), "u": enc_seq(u[0]), "v": enc_seq(v[0]), "acc": enc_seq(acc[0])},
+                {"kind": "series", "n": len(a), "T_over_dt": ratio_, "xi": 0.05, "dt": dt_, "entry": "extreme time unit", "shape": "short", "finding": "extreme-dt"})
+        except Exception:
+            pass
     # call history: consecutive calls in one process that share dt, xi, the number of periods and the two end periods
     # but differ in the interior periods / in their order (each period's series must depend on that period only)
     from eqsig import sdof
@@ -247,6 +259,10 @@ def run(tier, seed):
         if t not in r2.verdicts:
             raise tlc.MachineryError("no verdict for tid %d" % t)
         rep.traces += 1
+        if meta[t].get("finding") == "extreme-dt":
+            if r2.verdicts[t][0]:
+                rep.fail("ExactAtExtremeTimeUnit", "extreme-dt", dict(meta[t], clauses=sorted(r2.verdicts[t][0])))
+            continue
         for c in r2.verdicts[t][0]:
             rep.fail(c, "trace:" + meta[t].get("entry", meta[t]["kind"]) if isinstance(meta[t].get("entry"), str) else "trace:" + meta[t]["kind"], meta[t])
     ks = [t for t in sorted(meta) if meta[t]["kind"] == "series"]
